@@ -243,8 +243,9 @@ def run(ck, build):
     ck.rule("R-C19-GLOBALS", "every global variable definition in every linked configuration (N0 and -O3 IR) is constant and not thread-local; "
             "assembly programs define no writable section")
     ck.rule("R-C19-IMPORTS", "every external symbol called is in the per-configuration allow-list of stateless/thread-safe imports; no heap, no VLA")
-    ck.rule("R-C19-FRESH", "the PRNG initialisers leave no byte of the caller's object that they later hash to its previous content: the seed buffer is all zero when the entropy source is "
-            "asked (so a short or failed delivery gives a state that is independent of what the memory was used for before)")
+    ck.rule("R-C19-FRESH", "the PRNG initialisers and reseed leave no byte that they later hash to whatever an earlier use of that memory left there: the seed buffer is defined (all zero, or the "
+            "old V in reseed) when the entropy source is asked, so a short or failed delivery gives a state that is independent of what the memory - the caller's object or the stack - was "
+            "used for before")
     ck.rule("R-C19-ESCAPE", "no pointer derived from a parameter is stored outside the callee's frame except callback/user_data in the PRNG state")
     ck.not_decided += ["thread-safety of the allow-listed libc functions themselves (trusted)", "gcc builds below symbol level"]
     ck.assume("libc functions in the allow-list are thread-safe; errno is per-thread")
@@ -278,7 +279,7 @@ def run(ck, build):
 
     def _fresh_ob(cond, rule, fn, cons, ok_, bad_, where=None):
         base = cons.split("[")[0]
-        if base.startswith("init") and base.endswith("-prefill"):
+        if base.endswith("-prefill"):        # init(cb)-prefill, init(null)-prefill, reseed-prefill: what the buffer handed to the source holds before the request
             nfresh[0] += 1
             return ck.ob(cond, "R-C19-FRESH", fn, "object-history-" + cons, ok_,
                          "the seed buffer inside the caller's object is hashed with whatever an earlier, unrelated use of that memory left there when the source delivers fewer than 32 bytes: "
